@@ -43,6 +43,8 @@ func rndScore64(r *rand.Rand) float64 {
 	}
 }
 
+var fkinds = []comet.FusionKind{comet.WeightedSumFusion, comet.ReciprocalRankFusion, comet.MaxFusion, comet.MinFusion}
+
 var kBoundary = func(n int) []int { return []int{-5, -1, 0, 1, 2, n - 1, n, n + 1, n + 7, 1 << 40} }
 
 func genC19(r *rand.Rand, t *Trace, thorough bool) {
@@ -254,7 +256,6 @@ func genC19(r *rand.Rand, t *Trace, thorough bool) {
 		}
 	}
 	// ---- fusion (1906) ----
-	fkinds := []comet.FusionKind{comet.WeightedSumFusion, comet.ReciprocalRankFusion, comet.MaxFusion, comet.MinFusion}
 	for it := 0; it < 120*mult; it++ {
 		kz := r.Intn(4)
 		cfg := &comet.FusionConfig{VectorWeight: 1, TextWeight: 1, K: 60}
